@@ -26,7 +26,7 @@ ASSUMPTIONS = [
     "the user series caches its own elements (BlockSeries semantics), so 'at most once' is observed at the user's eval boundary",
     "values are dense float blocks; H_0 diagonal with gaps >= 1",
 ]
-BUDGET = {"quick": dict(cases=3000, seconds=70), "thorough": dict(cases=40000, seconds=480)}
+BUDGET = {"quick": dict(cases=3000, seconds=300), "thorough": dict(cases=40000, seconds=480)}
 CASE_TIMEOUT = 90
 MONITORS = {"causal": True}
 MONITOR_VERDICTS = ("causal", "pending")
